@@ -105,11 +105,6 @@ theorem reachB_sound {E : List Edge} {C : Label → Bool} :
 
 /-! ### The queue invariant -/
 
-/-- two accesses of one resource conflict when at least one is a write (capture / use) -/
-def Conflict (k1 k2 : Kind) : Prop := k1.isWrite = true ∨ k2.isWrite = true
-
-instance (k1 k2 : Kind) : Decidable (Conflict k1 k2) := by unfold Conflict; infer_instance
-
 structure QInv (init : Queue) (m : QMap) (R : Node → Node → Prop) (log : List Access) : Prop where
   /-- every logged write reaches the current writer of its resource -/
   wr : ∀ a ∈ log, a.kind.isWrite = true → ∃ w, (m.get a.res).write = some w ∧ R a.node w.node
@@ -546,18 +541,19 @@ def memLog (P : List (Node × Instr)) : List Access :=
   P.flatMap fun p => (memAccesses p.2).map fun a => ⟨p.1, a.1, a.2⟩
 
 /-- every `AwaitMemoryAccess(k)` edge joins two logged accesses of one region, the source's of kind `k`,
-that conflict; and never a node with itself -/
-def MemEdgesJustified (E : List Edge) (log : List Access) : Prop :=
-  ∀ e ∈ E, ∀ k, e.label = .await k → e.src ≠ e.dst ∧
+that conflict, and goes upwards in the measure `μ` (the position in the block) -/
+def MemEdgesJustified (μ : Node → Nat) (E : List Edge) (log : List Access) : Prop :=
+  ∀ e ∈ E, ∀ k, e.label = .await k → μ e.src < μ e.dst ∧
     ∃ r k2, (⟨e.src, r, k⟩ : Access) ∈ log ∧ (⟨e.dst, r, k2⟩ : Access) ∈ log ∧ Conflict k k2
 
-theorem stepInstr_memInv {n : Node} {ins : Instr} {st st' : St} {log : List Access}
+theorem stepInstr_memInv {μ : Node → Nat} {n : Node} {ins : Instr} {st st' : St} {log : List Access}
     (h : stepInstr n ins st = .ok st')
     (hq : QInv Queue.memInit st.mem (Reach st.edges isAwait) log)
-    (hj : MemEdgesJustified st.edges log) :
+    (hj : MemEdgesJustified μ st.edges log)
+    (hμ : ∀ a ∈ log, μ a.node < μ n) :
     QInv Queue.memInit st'.mem (Reach st'.edges isAwait)
       (log ++ (memAccesses ins).map fun a => ⟨n, a.1, a.2⟩) ∧
-    MemEdgesJustified st'.edges (log ++ (memAccesses ins).map fun a => ⟨n, a.1, a.2⟩) := by
+    MemEdgesJustified μ st'.edges (log ++ (memAccesses ins).map fun a => ⟨n, a.1, a.2⟩) := by
   obtain ⟨hm, hsub, hnew⟩ := stepInstr_mem h
   constructor
   · rw [hm]
@@ -580,39 +576,113 @@ theorem stepInstr_memInv {n : Node} {ins : Instr} {st st' : St} {log : List Acce
       obtain ⟨d, ⟨hd, hdn⟩, rfl⟩ := hin
       simp only [Label.await.injEq] at hk
       subst hk
+      have hdn' : d.node ≠ n := by simpa using hdn
       obtain ⟨a, ha, hc, hin⟩ := recordAll_deps_justified (init := Queue.memInit) n (memAccesses ins) st.mem log
         (hq.mono fun _ _ _ => trivial) d hd
-      refine ⟨by simpa using hdn, a.1, a.2, ?_, ?_, hc⟩
-      · rcases hin with hin | hin
-        · exact hin
+      have hin' : (⟨d.node, a.1, d.kind⟩ : Access) ∈ log := by
+        rcases hin with hin | hin
+        · rcases List.mem_append.1 hin with hin | hin
+          · exact hin
+          · simp only [List.mem_map] at hin
+            obtain ⟨a', _, ha'⟩ := hin
+            have : n = d.node := by injection ha'
+            exact absurd this.symm hdn'
         · simp [Queue.memInit] at hin
-      · apply List.mem_append_right
-        simp only [List.mem_map]
-        exact ⟨a, ha, rfl⟩
+      refine ⟨hμ _ hin', a.1, a.2, List.mem_append_left _ hin', ?_, hc⟩
+      apply List.mem_append_right
+      simp only [List.mem_map]
+      exact ⟨a, ha, rfl⟩
 
-theorem runItems_memInv :
+theorem runItems_memInv {μ : Node → Nat} :
     ∀ (P : List (Node × Instr)) (st st' : St) (log : List Access),
       runItems P st = .ok st' →
       QInv Queue.memInit st.mem (Reach st.edges isAwait) log →
-      MemEdgesJustified st.edges log →
+      MemEdgesJustified μ st.edges log →
+      P.Pairwise (fun p q => μ p.1 < μ q.1) →
+      (∀ a ∈ log, ∀ p ∈ P, μ a.node < μ p.1) →
       QInv Queue.memInit st'.mem (Reach st'.edges isAwait) (log ++ memLog P) ∧
-      MemEdgesJustified st'.edges (log ++ memLog P) := by
+      MemEdgesJustified μ st'.edges (log ++ memLog P) := by
   intro P
   induction P with
   | nil =>
-    intro st st' log h hq hj
+    intro st st' log h hq hj _ _
     simp only [runItems] at h
     cases h
     simpa [memLog] using ⟨hq, hj⟩
   | cons p rest ih =>
-    intro st st' log h hq hj
+    intro st st' log h hq hj hsorted hlog
     obtain ⟨n, ins⟩ := p
     simp only [runItems] at h
     split at h
     · rename_i st1 hst1
-      obtain ⟨hq1, hj1⟩ := stepInstr_memInv hst1 hq hj
-      have := ih st1 st' _ h hq1 hj1
+      obtain ⟨hq1, hj1⟩ := stepInstr_memInv hst1 hq hj (fun a ha => hlog a ha _ List.mem_cons_self)
+      rw [List.pairwise_cons] at hsorted
+      have := ih st1 st' _ h hq1 hj1 hsorted.2 (by
+        intro a ha q hq'
+        rcases List.mem_append.1 ha with ha | ha
+        · exact hlog a ha q (List.mem_cons_of_mem _ hq')
+        · simp only [List.mem_map] at ha
+          obtain ⟨a', _, rfl⟩ := ha
+          exact hsorted.1 q hq')
       simpa [memLog, List.append_assoc] using this
     · cases h
+
+/-! ### Positions of the items of a block -/
+
+theorem mem_enumFrom : ∀ (is : List Instr) (k : Nat) (p : Node × Instr),
+    p ∈ enumFrom k is → ∃ i, p.1 = .instr i ∧ k ≤ i ∧ i < k + is.length ∧ is[i - k]? = some p.2 := by
+  intro is
+  induction is with
+  | nil => intro k p h; simp [enumFrom] at h
+  | cons x xs ih =>
+    intro k p h
+    simp only [enumFrom, List.mem_cons] at h
+    rcases h with rfl | h
+    · exact ⟨k, rfl, Nat.le_refl _, by simp, by simp⟩
+    · obtain ⟨i, h1, h2, h3, h4⟩ := ih (k + 1) p h
+      refine ⟨i, h1, by omega, by simp only [List.length_cons]; omega, ?_⟩
+      have : i - k = (i - (k + 1)) + 1 := by omega
+      rw [this, List.getElem?_cons_succ]; exact h4
+
+theorem enumFrom_sorted (L : Nat) : ∀ (is : List Instr) (k : Nat),
+    (enumFrom k is).Pairwise fun p q => p.1.pos L < q.1.pos L := by
+  intro is
+  induction is with
+  | nil => intro k; simp [enumFrom]
+  | cons x xs ih =>
+    intro k
+    simp only [enumFrom, List.pairwise_cons]
+    refine ⟨?_, ih (k + 1)⟩
+    intro q hq
+    obtain ⟨i, h1, h2, _, _⟩ := mem_enumFrom xs (k + 1) q hq
+    rw [h1]; simp only [Node.pos]; omega
+
+theorem items_sorted (b : Block) :
+    b.items.Pairwise fun p q => p.1.pos b.instrs.length < q.1.pos b.instrs.length := by
+  unfold Block.items
+  rw [List.pairwise_append]
+  refine ⟨enumFrom_sorted _ _ _, ?_, ?_⟩
+  · cases b.term <;> simp
+  · intro p hp q hq
+    obtain ⟨i, h1, _, h3, _⟩ := mem_enumFrom _ _ p hp
+    cases ht : b.term with
+    | none => simp [ht] at hq
+    | some t =>
+      simp only [ht, List.mem_singleton] at hq
+      subst hq
+      rw [h1]; simp only [Node.pos]; omega
+
+theorem items_pos (b : Block) : ∀ p ∈ b.items, 0 < p.1.pos b.instrs.length := by
+  intro p hp
+  unfold Block.items at hp
+  rcases List.mem_append.1 hp with hp | hp
+  · obtain ⟨i, h1, _, _, _⟩ := mem_enumFrom _ _ p hp
+    rw [h1]; simp [Node.pos]
+  · cases ht : b.term with
+    | none => simp [ht] at hp
+    | some t =>
+      simp only [ht, List.mem_singleton] at hp
+      subst hp
+      simp [Node.pos]
 
 end QV.Sched
